@@ -53,26 +53,6 @@ def _driver(cfg, pup_argv, res_fd):
         for nm in logs:
             setattr(child, nm, Rec(nm))
         emit('SPAWNED %d' % child.pid)
-        if cfg.get('prior'):
-            # an earlier interact() session on the same object, entered and left in the terminal mode as found;
-            # the mode is changed afterwards, so the session under test starts from a different one
-            m1 = termios.tcgetattr(0)
-            emit('PRIOR')
-            try:
-                child.interact()
-            except BaseException as e:
-                out['prior_error'] = ''.join(traceback.format_exception_only(type(e), e)).strip()
-            out['prior_mode_restored'] = (termios.tcgetattr(0) == m1)
-            emit('PRIOR-DONE')
-        # distinctive mode: canonical, no echo, no output post-processing, odd VMIN/VTIME-free flags
-        a = termios.tcgetattr(0)
-        a[1] &= ~termios.OPOST
-        a[3] &= ~(termios.ECHO | termios.ECHOE | termios.ECHOK)
-        a[3] |= termios.ICANON | termios.ISIG
-        a[0] |= termios.ICRNL
-        a[0] &= ~termios.IXON
-        termios.tcsetattr(0, termios.TCSANOW, a)
-        before = termios.tcgetattr(0)
         if cfg.get('pending'):
             # wait for the harness to make the inner child write PENDING-text, consume a prefix of it
             child.expect_exact('<<' if enc else b'<<')
@@ -92,6 +72,43 @@ def _driver(cfg, pup_argv, res_fd):
                     pass
                 out['pending_before'] = (child.before if enc else child.before.decode('latin-1'))
             out['pending_seen'] = (child.buffer if enc else child.buffer.decode('latin-1'))
+        if cfg.get('prior'):
+            # an earlier interact() session on the same object, entered and left in the terminal mode as found;
+            # the mode is changed afterwards, so the session under test starts from a different one
+            m1 = termios.tcgetattr(0)
+            emit('PRIOR')
+
+            class Abort(Exception):
+                pass
+
+            def boom(b):
+                if b'\x01' in b:
+                    raise Abort()
+                return b
+            try:
+                if cfg['prior'] == 'abort':
+                    # ... and left through an exception that a filter raises (one way to leave interact() from a
+                    # program); what was pending has been shown by then and must not be shown again
+                    try:
+                        child.interact(input_filter=boom)
+                        out['prior_error'] = 'interact() returned although its input filter raised'
+                    except Abort:
+                        out['prior_aborted'] = True
+                else:
+                    child.interact()
+            except BaseException as e:
+                out['prior_error'] = ''.join(traceback.format_exception_only(type(e), e)).strip()
+            out['prior_mode_restored'] = (termios.tcgetattr(0) == m1)
+            emit('PRIOR-DONE')
+        # distinctive mode: canonical, no echo, no output post-processing, odd VMIN/VTIME-free flags
+        a = termios.tcgetattr(0)
+        a[1] &= ~termios.OPOST
+        a[3] &= ~(termios.ECHO | termios.ECHOE | termios.ECHOK)
+        a[3] |= termios.ICANON | termios.ISIG
+        a[0] |= termios.ICRNL
+        a[0] &= ~termios.IXON
+        termios.tcsetattr(0, termios.TCSANOW, a)
+        before = termios.tcgetattr(0)
         if cfg.get('dead_first'):
             # the harness lets the inner child write its output and exit before interact() is even entered
             emit('WAIT-DEATH')
